@@ -8,7 +8,7 @@ import random
 import sys
 import time
 
-from . import core, gen, profiles
+from . import core, gen, oracles, profiles
 
 
 def history_signature(lines):
@@ -31,6 +31,8 @@ def run_stream(profile_name, n, seed, keep_samples=2):
     stats = collections.Counter()
     t0 = time.time()
     loggers = []
+    oracle_fails = []
+    oracle_errors = []
     for i in range(n):
         impl = core.Impl(user_logger=r.random() < P.user_logger)
         loggers.append(impl.user_logger)
@@ -38,6 +40,23 @@ def run_stream(profile_name, n, seed, keep_samples=2):
         all_lines.append(impl.lines)
         all_blocks.append(impl.blocks)
         all_ops.append(ops)
+        try:
+            of = oracles.check(ops, impl.blocks)
+        except Exception as e:  # an oracle bug must never look like a violation
+            of = {}
+            stats["oracle_errors"] += 1
+            oracle_errors.append(repr(e))
+        for pid, msgs in list(of.items()):
+            for m in msgs:
+                if m.startswith("KNOWN["):
+                    stats["known." + m[6:m.index("]")]] += 1
+            msgs = [m for m in msgs if not m.startswith("KNOWN[")]
+            if not msgs:
+                continue
+            stats["oracle." + pid] += 1
+            if len(oracle_fails) < 40:
+                oracle_fails.append(dict(property=pid, message=msgs[0], index=i, ops=ops, lines=impl.lines,
+                                         user_logger=impl.user_logger))
         for o in ops:
             stats["op." + (o[0] if o[0] != "CALL" else o[1][0])] += 1
             if o[0] == "CALL" and o[1][0] == "SCHED":
@@ -73,6 +92,7 @@ def run_stream(profile_name, n, seed, keep_samples=2):
         mismatches.append(dict(index=-1, op_index=-1, diff="model produced %d histories, impl %d" % (len(model), len(all_blocks)), lines=[]))
     return dict(profile=profile_name, seed=seed, histories=n, distinct_nontrivial=nontriv,
                 stats=dict(stats), mismatches=mismatches[:20], n_mismatches=len(mismatches),
+                oracle_failures=oracle_fails, oracle_errors=oracle_errors[:3],
                 samples=[all_lines[i] for i in range(min(keep_samples, n))],
                 impl_s=round(t1 - t0, 2), model_s=round(t2 - t1, 2))
 
